@@ -23,6 +23,8 @@ func checkC12(c *Ctx, r *Report) {
 	borrow(c, r, c14R1, "C14.R1.paths", "C12.R5.rejected-not-handled", 1, "a message the accept function rejected or ignored, or that did not decode, never reaches the handler", nil, "the handler is then given the library's own error reply (QR set, sections wiped) as if a client had sent it, and its answer is a second frame on the connection")
 	c12UDPSizePrecedence(c, r, "C12.R3.udpsize-precedence")
 	c12NoReleaseAfterServe(c, r, "C12.R4.no-release-after-serve")
+	borrow(c, r, func(c *Ctx, r *Report) { c15Loop(c, r, "Transfer.inAxfr"); c15Loop(c, r, "Transfer.inIxfr") }, "C15.R2.no-error-guards", "C12.R2.transfer-id", 2, "every envelope of a transfer is delivered error-free only when its ID equals the query's", func(k string) bool { return strings.Contains(k, "q.Id == in.Id") }, "a stream exchange accepts a reply whose ID differs instead of failing with ErrId")
+	borrow(c, r, checkC16, "C16.R2.no-buffer-alias", "C12.R4.no-buffer-alias", 100, "the decoded request shares no memory with the recycled receive buffer", nil, "the handler sees its request change when the buffer, back in the pool, receives another client's datagram")
 }
 
 func isConnRead(call *ssa.Call) bool {
